@@ -295,3 +295,52 @@ P["C12"] = {
         "model = repaired behaviour of the two defects of DESIGN.md §7 (fix.patch: i64 negatives, coefficient-list path selection); a third defect found by this check (array / coefficient-list entry points accept scaled magnitudes in (Q/2, 2^(B-1)]: missing sign bit in the bit-count test) is recorded in known_findings.json (status known, cases labelled `.gap` by the harness) and repaired by fix_signbit.patch",
     ],
 }
+
+P["C19"] = {
+    "lean_modules": ["Heathcliff.Props.C19"],
+    "level": "proof",
+    "runs": lambda tier, seed: [{"seed": seed}] if tier == "quick" else [{"seed": seed * 1000}, {"seed": seed * 1000 + 1, "args": ["small"]}, {"seed": seed * 1000 + 2, "args": ["small"]}],
+    "search": lambda tier, seed: [{"seed": seed * 7919}],
+    "rule": "Unit level: negacyclic_shift for every shift 0..2N-1 (N <= 64; sampled with boundaries above) on unit / all-(q-1) / sparse / random vectors, GaloisTool::apply for the elements 2^i+1 the trace and the merge use and random odd ones. Ciphertext level, BFV (batching-prime and power-of-two plain modulus), BGV, CKKS, N = 4..64 (thorough ..1024, sampled above 64), two data primes + special prime, first level and one level down: extract_lwe + assemble_lwe for every index 0..N-1 in both input representations plus indices N, N+1, 2N, 2N+1 and a size-3 ciphertext (refusals); divide_by_poly_modulus_degree_inplace with and without multiplier; field_trace_inplace for every parameter 0..log2 N+1 in the working representation and refusal of the other one; pack_lwe_ciphertexts for every count 1..N over inputs extracted at varied indices from sources in alternating representation, plus counts 0 and N+1 (refusals). Source and result ciphertexts, LWE inputs and the secret key are dumped; the driver recomputes exact phases with big integers.",
+    "assumptions": ["the key-switching core is not modelled bit-exactly: its effect on the phase is additive noise; BFV/BGV results are decoded exactly, CKKS results are compared with the phase-level program within a key-switch noise bound that is an oracle parameter (same estimate as C04)",
+                    "BFV/BGV claims are made when the predicted remaining budget is >= 4 bits (all generated parameter sets satisfy this)"],
+}
+
+def _c20_runs(tier, seed):
+    parts = [["mm", "8"], ["mm", "16"], ["mm", "32"], ["bolt"], ["conv", "1"], ["conv", "2"], ["conv", "3"], ["conv", "4"], ["rnsp"]]
+    runs = [{"seed": seed, "args": a} for a in parts]
+    if tier == "quick":
+        runs += [{"seed": seed, "args": ["big"]}]
+    else:
+        runs += [{"seed": seed * 1000 + i, "args": ["big", n]} for i in range(2) for n in ("8", "16", "32", "64", "128", "256", "4096")]
+    return runs
+
+P["C20"] = {
+    "lean_modules": ["Heathcliff.Props.C20"],
+    "level": "proof",
+    "runs": _c20_runs,
+    "search": lambda tier, seed: [{"seed": seed * 7919, "args": ["big"]}, {"seed": seed * 7919 + 1, "args": ["conv", "1"]}],
+    "rule": ("Exhaustive over all matrix shapes (m,r,n) in [1,4]^3 (thorough [1,6]^3) at N = 8, 16, 32 x three objectives x LWE packing on/off x both operand "
+             "roles (matmul / matmul_reverse) x selected-terms transport on/off, operands random / all t-1 / all zero / a single non-zero entry / ramp, with and "
+             "without output bias (encode_outputs); random larger shapes up to several times the slot count at N = 8..128 (thorough ..256) and N = 4096; the three BOLT "
+             "slot-packing helpers on the same small shapes and on random larger ones (verdict lines only); convolutions: batch 1..2 (3), channels in/out 1..3, images "
+             "1..6 (8) squared-range x kernels 1..3 at N = 32 / 64 plus images that must be split (40x4, 4x40, 33x3, 65x1, 16x16 k5, more channels than fit); the RNS-plaintext "
+             "wrapper with 1..3 (4) plain moduli at N = 8..32 (64): split / merge of reduced, unreduced (k-word) and extreme values, eight evaluator operations in slot and "
+             "coefficient mode. Every helper runs end to end on real ciphertexts against an exact u128 reference (verdict lines); the block search, every encoded plaintext "
+             "polynomial, the decode map (on arbitrary plaintext polynomials incl. ones with zero top coefficients) and the whole pipeline re-run at the plaintext level by "
+             "the Lean model are compared with the code and with gather-form specifications / the matrix product / the valid cross-correlation / arithmetic modulo the product "
+             "of the plain moduli."),
+    "exhaustive": {"quick": True, "thorough": True},
+    "explanation": "exhaustive=true refers to the stated small-shape universes (all (m,r,n) up to 4 resp. 6 at N = 8,16,32 x objectives x packing; the listed convolution shapes); "
+                   "operand values and the larger shapes are sampled.",
+    "assumptions": [
+        "the ciphertext-level operations used by the helpers (encrypt, multiply_plain, add, rotations, key switching, field trace, decrypt) are the subjects of C01/C02/C04/C19; here their "
+        "composition is checked end to end on real ciphertexts and modelled at the plaintext level (negacyclic product modulo t by the explicit double sum)",
+        "pack_outputs is modelled by its plaintext semantics (coefficients q*ib+ib-1 of ciphertext c move to q*ib + c mod ib of packed polynomial c / ib); the field trace itself belongs to C19",
+        "the LWE-packing block search computes floor(log2(floor(N^0.33))) and 2^ceil(log2(input_dims)) in f64; the model uses the exact integer definitions (agreement checked by correspondence on every shape run)",
+        "cost arithmetic of the block searches is exact in the model (usize overflow needs dimensions beyond 2^20; theorem block_search_sound carries that bound)",
+        "BOLT variants: the rotation / diagonal index algebra is proved (Props/C20, rotation lemmas); the end-to-end statement for all (m,r,n) is kept as BoltStatement and covered by the exhaustive small-shape "
+        "and random larger-shape end-to-end runs (labelled tests)",
+        "CKKS variants of the helpers share the index maps (the code is textually the same up to the encoder call); only the BFV paths are executed here",
+    ],
+}
